@@ -251,3 +251,83 @@ pub fn search(tag: &str, tier: &str) -> Option<Value> {
     }
     other
 }
+
+// ---------------------------------------------------------------- duplicate occurrences (unit c12_dupocc)
+/// `pattern` is a list of name numbers in the order the names are written (e.g. [0,1,0,0,1]: na nb na na nb), declared as
+/// start states of a lex specification (`which` = "lex"), as %left tokens of a grammar ("yacc") or as keys of a %grmtools
+/// section ("header").  Expected: one duplicate error per name written more than once, in the order of their second
+/// occurrences, each with the spans of all the occurrences of its name in the order written.
+pub fn run_dupocc(which: &str, pattern: &[usize]) -> Outcome {
+    crate::note_case("c12_dupocc", json!({"which": which, "pattern": pattern}));
+    let (mut src, sep, tail) = match which {
+        "lex" => (String::from("%s "), " ", "\n%%\na 'a'\n"),
+        "yacc" => (String::from("%start a\n%left "), " ", "\n%%\na: ;\n"),
+        _ => (String::from("%grmtools{"), ", ", "}\n%%\n"),
+    };
+    let mut occ: Vec<(usize, (usize, usize))> = Vec::new();
+    for (k, &n) in pattern.iter().enumerate() {
+        if k > 0 { src.push_str(sep); }
+        let name = format!("n{}", (b'a' + (n % 26) as u8) as char);
+        occ.push((n, (src.len(), src.len() + name.len())));
+        src.push_str(&name);
+    }
+    src.push_str(tail);
+    // the reference: errors in the order of the second occurrences
+    let mut want: Vec<Vec<(usize, usize)>> = Vec::new();
+    let mut slot: std::collections::BTreeMap<usize, usize> = std::collections::BTreeMap::new();
+    for (k, (n, sp)) in occ.iter().enumerate() {
+        let before: Vec<(usize, usize)> = occ[..k].iter().filter(|(m, _)| m == n).map(|(_, s)| *s).collect();
+        if before.len() == 1 { slot.insert(*n, want.len()); want.push(vec![before[0], *sp]); }
+        else if before.len() > 1 { want[slot[n]].push(*sp); }
+    }
+    let expected = format!("{:?}", want);
+    let s2 = src.clone();
+    let w = which.to_string();
+    let r = catch_unwind(AssertUnwindSafe(move || -> Vec<Vec<(usize, usize)>> {
+        let sp = |v: &[Span]| v.iter().map(|s| (s.start(), s.end())).collect::<Vec<_>>();
+        match w.as_str() {
+            "lex" => {
+                use lrlex::{DefaultLexerTypes, LRNonStreamingLexerDef, LexerDef};
+                match LRNonStreamingLexerDef::<DefaultLexerTypes<u32>>::from_str(&s2) {
+                    Ok(_) => vec![],
+                    Err(es) => es.iter().filter(|e| matches!(cfgrammar::Spanned::spanskind(*e), cfgrammar::yacc::parser::SpansKind::DuplicationError)).map(|e| sp(cfgrammar::Spanned::spans(e))).collect(),
+                }
+            }
+            "yacc" => {
+                use cfgrammar::yacc::{ast::ASTWithValidityInfo, YaccKind};
+                let info = ASTWithValidityInfo::new(YaccKind::Grmtools, &s2);
+                info.errors().iter().filter(|e| matches!(cfgrammar::Spanned::spanskind(*e), cfgrammar::yacc::parser::SpansKind::DuplicationError)).map(|e| sp(cfgrammar::Spanned::spans(e))).collect()
+            }
+            _ => match GrmtoolsSectionParser::new(&s2, false).parse() {
+                Ok(_) => vec![],
+                Err(es) => es.iter().filter(|e| matches!(e.kind, cfgrammar::header::HeaderErrorKind::DuplicateEntry)).map(|e| sp(&e.locations)).collect(),
+            },
+        }
+    }));
+    match r {
+        Err(_) => Outcome { fails: true, observed: format!("panic on {:?}", src), expected },
+        Ok(got) => Outcome { fails: got != want, observed: format!("{:?} for {:?}", got, src), expected },
+    }
+}
+
+pub fn search_dupocc(tag: &str, tier: &str) -> Option<Value> {
+    let whiches: &[&str] = if tag.contains("lex_") { &["lex"] } else if tag.contains("yacc_") { &["yacc"] } else if tag.contains("header_") { &["header"] } else { &["lex", "yacc", "header"] };
+    let (maxlen, names) = if tier == "thorough" { (7usize, 3usize) } else { (6, 3) };
+    for which in whiches {
+        for len in 1..=maxlen {
+            let mut p = vec![0usize; len];
+            loop {
+                let o = run_dupocc(which, &p);
+                if o.fails { return Some(witness("c12_dupocc", json!({"which": which, "pattern": p}), &o)); }
+                let mut i = len;
+                loop {
+                    if i == 0 { break; }
+                    i -= 1;
+                    if p[i] + 1 < names { p[i] += 1; break; } else { p[i] = 0; if i == 0 { i = usize::MAX; break; } }
+                }
+                if i == usize::MAX { break; }
+            }
+        }
+    }
+    None
+}
